@@ -112,6 +112,13 @@ class IdRules:
                 for e in p.events:
                     if e['kind'] == 'atomic' and not self.is_flag(e['obj']) and isinstance(e['obj'], tuple) and e['obj'][0] == 'deref' \
                             and f['tu'] == 'id_manager.cpp':
+                        if f['key'] not in (self.getter['key'], self.dtor['key']):
+                            # another member of the ID classes that writes an atomic object through a pointer (a deleter, a reset
+                            # helper ...): the only atomic objects here are the reservation flags
+                            if is_write(e):
+                                self.sink.bad('C05.WHO', '%s writes an atomic object through %s' % (sname(f['name']), show(e['obj'])[:40]), '%s:%s' % (f['file'], e['line']),
+                                              'outside the claim loop and ~HeartBeater nothing may write the reservation flags (a second release frees an ID that was handed out again)')
+                            continue
                         raise AnalysisBroken('%s:%s: %s reaches an atomic object through a pointer (%s), not by subscript of the reservation array: '
                                              'idiom not supported by the ID rules' % (f['file'], e['line'], sname(f['name']), show(e['obj'])[:60]))
 
@@ -331,10 +338,20 @@ class IdRules:
         for g in self.fx.functions.values():
             if g['tu'] != 'id_manager.cpp' or g['key'] in (f['key'], self.dtor['key']) or self.eng.private_helper(g):
                 continue     # helpers are analysed inside their callers
+            if not g['file'].endswith('id_manager.cpp') or self.eng.is_spin_function(g) or g.get('parent') in (f['key'], self.dtor['key']):
+                continue     # instantiations of library templates (the spin helper) and lambdas of the two writers are covered there
             for p in self.eng.paths(g)['paths']:
                 for e in self.flag_events(p):
                     if is_write(e):
                         sink.bad('C05.WHO', '%s writes a reservation flag' % sname(g['name']), '%s:%s' % (g['file'], e['line']), '')
+                # an atomic object written through a pointer / reference / iterator in this translation unit can only be a
+                # reservation flag (e.g. an initialiser that runs after the first IDs were handed out, a "reset" helper)
+                for e in p.events:
+                    if e['kind'] == 'atomic' and is_write(e) and not self.is_flag(e['obj']) and g['file'].endswith('id_manager.cpp') and \
+                            isinstance(e['obj'], tuple) and e['obj'] and e['obj'][0] == 'deref':
+                        sink.bad('C05.WHO', '%s writes an atomic object through %s' % (sname(g['name']) or 'a namespace-scope initialiser', show(e['obj'])[:40]),
+                                 '%s:%s' % (g['file'], e['line']),
+                                 'outside the claim loop and ~HeartBeater nothing may write the reservation flags (an ID that is already handed out becomes free again)')
         sink.ok('C05.WHO', 'only the claim loop and ~HeartBeater write reservation flags', self.arr['file'], '')
         # GetThreadID returns the stored ID
         gt = self.fx.fn(NS + 'IDManager::GetThreadID', 'id_manager.cpp')
